@@ -53,7 +53,7 @@ def text_token(draw, force_text=False):
     return t
 
 
-label_name = st.tuples(st.sampled_from(["rln", "rln", "", "wedge", "motl_"]),
+label_name = st.tuples(st.sampled_from(["rln", "rln", "rln", "", "wedge", "motl_", "_", "__tag_"]),  # names may themselves begin with underscores (pandas' _merge)
                        st.text(alphabet="ABCDEFabcdefXYZxyz", min_size=1, max_size=10)).map(lambda t: t[0] + t[1])
 
 
